@@ -713,6 +713,17 @@ def run_property(prop_id, tier="quick", seed=0, verbose=True):
     distinct = set()
     nontrivial = getattr(prop, "nontrivial", None)
     n_nontrivial_distinct = set()
+    # known findings
+    kf = load_known_findings(prop_id)
+    matcher = getattr(prop, "finding_matches", None)
+
+    def match_known(inp, o, why):
+        for e in kf:
+            if matcher and matcher(e["id"], inp, o, why):
+                return e
+        return None
+
+    shrunk_first = {}
     with scratch_dir(f"verif-{prop_id}-") as sd:
         os.environ["VERIF_SCRATCH"] = sd
         if hasattr(prop, "setup"):
@@ -732,6 +743,21 @@ def run_property(prop_id, tier="quick", seed=0, verbose=True):
                 v = "oracle raised " + repr(e)
             if v:
                 oracle_fail[c.idx] = v
+        # shrink the first unexplained failure while the driver's scratch state still exists
+        if hasattr(prop, "shrink"):
+            for c in cases:
+                if c.idx in oracle_fail and not match_known(c.input, obs[c.idx], oracle_fail[c.idx]):
+                    def _still_fails(i):
+                        o2 = safe_impl(prop, i)
+                        if isinstance(o2, Err) and str(o2).startswith("DRIVER:"):
+                            return False
+                        w2 = prop.oracle(i, o2)
+                        return bool(w2) and not match_known(i, o2, w2)
+                    try:
+                        shrunk_first[c.idx] = prop.shrink(c.input, _still_fails) or c.input
+                    except Exception:
+                        pass
+                    break
         if hasattr(prop, "teardown"):
             prop.teardown()
     triples = []
@@ -772,16 +798,6 @@ def run_property(prop_id, tier="quick", seed=0, verbose=True):
     log(f"correspondence: {len(triples) if corr_ok else 0} cases evaluated in Coq, {len(mism)} disagreements; "
         f"oracle failures: {len(oracle_fail)}")
 
-    # known findings
-    kf = load_known_findings(prop_id)
-    matcher = getattr(prop, "finding_matches", None)
-
-    def match_known(inp, o, why):
-        for e in kf:
-            if matcher and matcher(e["id"], inp, o, why):
-                return e
-        return None
-
     # 6 verdict
     by_idx = {c.idx: c for c in cases}
     reported_known = {}
@@ -798,13 +814,7 @@ def run_property(prop_id, tier="quick", seed=0, verbose=True):
         print(line, flush=True)
     if new_fail:
         idx, why = new_fail[0]
-        shr = by_idx[idx].input
-        if hasattr(prop, "shrink"):
-            try:
-                shr = prop.shrink(by_idx[idx].input, lambda i: bool(prop.oracle(i, safe_impl(prop, i)))
-                                  and not match_known(i, safe_impl(prop, i), "")) or shr
-            except Exception:
-                pass
+        shr = shrunk_first.get(idx, by_idx[idx].input)
         path = write_replay(prop_id, seed, f"oracle_{idx}", {
             "kind": "property-violated-on-implementation",
             "input": jsonable(shr), "original_input": jsonable(by_idx[idx].input),
